@@ -42,7 +42,7 @@ func (c *Client) recordStream(m *RecvMsg) {
 
 // twin builds the scenario of the second execution from what the first one actually sent.
 func twinOf(sc *Scenario, res *Result, keep func(i int, st *Step) bool, flags []string) *Scenario {
-	t := &Scenario{Prop: sc.Prop, Family: "twin", Seed: sc.Seed, World: sc.World, NoOracles: true}
+	t := &Scenario{Prop: sc.Prop, Family: "twin", Seed: sc.Seed, World: sc.World, NoOracles: true, NoFinalClose: sc.NoFinalClose}
 	t.World.Flags = flags
 	for i := range sc.Steps {
 		st := sc.Steps[i]
